@@ -1351,7 +1351,7 @@ class XMLSchemaBase(XsdValidator, ElementPathMixin[Union[SchemaType, XsdElement]
 
                     # Clear identity constraints counters
                     for k, e in enumerate(xsd_ancestors[k:], start=k):
-                        for identity in e.identities:
+                        for identity in getattr(e, 'identities', ()):  # a wildcard has none
                             if identity in identities:
                                 identities[identity].reset(ancestors[k])
                             else:
